@@ -432,29 +432,33 @@ def fastaEntriesAux : List Bytes → Option (Bytes × Bytes) → List (Bytes × 
       | some (n, s) => fastaEntriesAux ls (some (n, s ++ l))
       | none => fastaEntriesAux ls none
 
-def prefixSums : List Nat → List Nat
-  | [] => [0]
-  | x :: xs => 0 :: (prefixSums xs).map (· + x)
+/-- `np.insert(np.cumsum(l), 0, a)` -/
+def psum : Nat → List Nat → List Nat
+  | a, [] => [a]
+  | a, x :: xs => a :: psum (a + x) xs
 
 /-- numpy index with Python wrap-around for negative positions, `none` = IndexError -/
 def pyGet (l : List Nat) (i : Int) : Option Nat :=
   if i < 0 then (if (-i).toNat ≤ l.length then l[l.length - (-i).toNat]? else none) else l[i.toNat]?
 
-/-- sequence length per entry, as shipped: `ends[offsets[1:]-1] - starts[offsets[:-1]]` over the sequence lines -/
+/-- sequence length per entry, as shipped: `ends[offsets[1:]-1] - starts[offsets[:-1]]` over the sequence lines
+(`offsets` = running sum of the lines per entry) -/
+def seqLensOldAux (starts ends : List Nat) : Nat → List Nat → Option (List Nat)
+  | _, [] => some []
+  | off, n :: ns =>
+    match pyGet ends (((off + n : Nat) : Int) - 1), pyGet starts (off : Int), seqLensOldAux starts ends (off + n) ns with
+    | some e, some s, some r => some ((e - s) :: r)
+    | _, _, _ => none
+
 def seqLensOld (lineLens : List Nat) (nLines : List Nat) : Option (List Nat) :=
-  let starts := (prefixSums lineLens).dropLast
-  let ends := (prefixSums lineLens).drop 1
-  let offs := prefixSums' nLines
-  omap (fun ab : Nat × Nat => match pyGet ends ((ab.2 : Int) - 1), pyGet starts (ab.1 : Int) with
-    | some e, some s => some (e - s)
-    | _, _ => none) (List.zip offs (offs.drop 1))
-where prefixSums' (l : List Nat) : List Nat := (l.foldl (fun acc x => acc ++ [acc.getLast?.getD 0 + x]) [0])
+  seqLensOldAux (psum 0 lineLens).dropLast ((psum 0 lineLens).drop 1) 0 nLines
 
 /-- repaired: `cum[offsets[1:]] - cum[offsets[:-1]]` with `cum` the cumulative line lengths -/
-def seqLens (lineLens : List Nat) (nLines : List Nat) : List Nat :=
-  let cum := lineLens.foldl (fun acc x => acc ++ [acc.getLast?.getD 0 + x]) [0]
-  let offs := nLines.foldl (fun acc x => acc ++ [acc.getLast?.getD 0 + x]) [0]
-  (List.zip offs (offs.drop 1)).map (fun ab => cum.getD ab.2 0 - cum.getD ab.1 0)
+def seqLensAux (cum : List Nat) : Nat → List Nat → List Nat
+  | _, [] => []
+  | off, n :: ns => (cum.getD (off + n) 0 - cum.getD off 0) :: seqLensAux cum (off + n) ns
+
+def seqLens (lineLens : List Nat) (nLines : List Nat) : List Nat := seqLensAux (psum 0 lineLens) 0 nLines
 
 /-- `get_data`: header lines are the lines that start with the marker; lines per entry from the header positions;
 the sequence of an entry is the flat text of the sequence lines cut by `seq_lens`
